@@ -91,7 +91,7 @@ def plan(tier, seed):
     items.append({"kind": "app", "exhaustive": "proxy by option / environment x credentials (none, user+password, user only) x exemption, through WebSocketApp.run_forever"})
     items.append({"kind": "portless", "exhaustive": "every proxy environment variable x proxy URL with / without port x target port"})
     items.append({"kind": "redirects", "exhaustive": "redirect from (scheme, host) to (scheme, host) x proxy by option / environment x exemption of either host"})
-    n = 6000 if tier == "quick" else 120000
+    n = 6000 if tier == "quick" else 480000
     per = 250 if tier == "quick" else 2500
     for s in range(0, n, per):
         items.append({"kind": "rand", "start": s, "count": per})
